@@ -54,6 +54,64 @@ def kebab(name):
     return re.sub(r"(?<!^)(?=[A-Z])", "-", name).lower()
 
 
+def emission_plumbing(ctx, rule):
+    """emit_events_to_command: per mode, what is produced (and the user's -E variables) is what the command receives (shared with C18)"""
+    facts = ctx.facts
+    ec = ctx.anchor_fn(rule, "watchexec_cli::config::emit_events_to_command")
+    want8 = {"Environment": ("emits_to_environment", "env"), "Stdio": ("emits_to_file", "stdin"), "File": ("emits_to_file", "envfile"),
+             "JsonStdio": ("emits_to_json_file", "stdin"), "JsonFile": ("emits_to_json_file", "envfile"), "None": (None, None)}
+    en8 = pathx.Enum(interesting=lambda d_: strip_generics(d_).endswith(("emits_to_environment", "emits_to_file", "emits_to_json_file", "Command::env", "Command::stdin",
+                                                                        "Iterator::chain", "Option::replace")))
+    seen8 = {}
+    bad8 = []
+    for q in en8.paths(thir.root(ec)):
+        mode = [e[2][0] for e in q.ev if e[0] == "arm" and e[1] == "emit_events_to"]
+        if len(mode) != 1 or mode[0] not in want8:
+            bad8.append("a path does not dispatch on the emission mode (%s)" % mode)
+            continue
+        m = mode[0]
+        prod = [strip_generics(e[1]).split("::")[-1] for e in q.ev if e[0] == "call" and strip_generics(e[1]).split("::")[-1].startswith("emits_to_")]
+        failed = any(e[0] == "arm" and e[2][0].startswith("Err") for e in q.ev)
+        asg = [e[2] for e in q.ev if e[0] == "assign" and e[1] == "envs"]
+        rep = [pathx.desc(e[2]["a"][0]) for e in q.ev if e[0] == "call" and strip_generics(e[1]).endswith("Option::replace")]
+        envloop = [e for e in q.ev if e[0] == "loop" and e[2] == "for envs"]
+        applied = bool(envloop) and all([[pathx.desc(a) for a in x[2]["a"]] for x in it if x[0] == "call" and strip_generics(x[1]).endswith("Command::env")] == [["command", "var.key", "var.value"]]
+                                        and ("loop-break",) not in it for it in envloop[0][1])
+        stdin_ev = None
+        for e in q.ev:
+            if e[0] == "iflet" and e[1] == "stdin":
+                stdin_ev = e[3] if "Some" in e[2] else (not e[3])
+        sets_stdin = any(e[0] == "call" and strip_generics(e[1]).endswith("Command::stdin") and [pathx.desc(a) for a in e[2]["a"]] == ["command", "stdin"] for e in q.ev)
+        if not applied:
+            bad8.append("%s: the collected variables are not all applied with command.env(key, value)" % m)
+        if sets_stdin != bool(stdin_ev):
+            bad8.append("%s: command.stdin is %s although stdin is %s" % (m, "set" if sets_stdin else "not set", "Some" if stdin_ev else "None"))
+        wprod, wkind = want8[m]
+        if prod != ([wprod] if wprod else []):
+            bad8.append("%s: produces with %s, expected %s" % (m, prod, wprod))
+        if failed:
+            if asg or rep:
+                bad8.append("%s: something is handed over although producing the file failed" % m)
+            continue
+        if wkind == "env":
+            ok8 = asg == ["Box::new(Iterator::chain(envs, emits::emits_to_environment(events)))"] and not rep
+        elif wkind == "envfile":
+            ok8 = len(asg) == 1 and asg[0].startswith("Box::new(Iterator::chain(envs, once::once(EnvVar{key: Into::into('WATCHEXEC_EVENTS_FILE'), value: Into::into(path)}") and not rep
+        elif wkind == "stdin":
+            ok8 = not asg and rep == ["stdin"]
+        else:
+            ok8 = not asg and not rep
+        seen8[m] = seen8.get(m, True) and ok8
+        if not ok8:
+            bad8.append("%s: hands over %s / %s" % (m, asg, rep))
+    ctx.require(not bad8 and set(seen8) == set(want8), rule, "emission-plumbing", "each emission mode hands its product to the command (environment / events file variable / stdin)",
+                ec.loc(ec.line), detail="; ".join(sorted(set(bad8)))[:500], fail="what is produced for the command is not what it receives: " + "; ".join(sorted(set(bad8)))[:300])
+    ee = ctx.anchor_fn(rule, "watchexec_cli::emits::emits_to_environment")
+    sc = [[pathx.desc(a) for a in nd["a"]] for c, nd in thir.calls_in(thir.root(ee)) if strip_generics(c).endswith("paths::summarise_events_to_env")]
+    ctx.require(sc in ([["slice::iter(events)"]], [["events"]]), rule, "environment-is-summary", "the environment variables are the summary of the batch's events", ee.loc(ee.line), detail=str(sc))
+
+
+
 def run(ctx):
     facts = ctx.facts
     ctx.level = "other"
@@ -329,58 +387,7 @@ def run(ctx):
 
     # ---- R17.8 emission plumbing
     try:
-        ec = ctx.anchor_fn("R17.8", "watchexec_cli::config::emit_events_to_command")
-        want8 = {"Environment": ("emits_to_environment", "env"), "Stdio": ("emits_to_file", "stdin"), "File": ("emits_to_file", "envfile"),
-                 "JsonStdio": ("emits_to_json_file", "stdin"), "JsonFile": ("emits_to_json_file", "envfile"), "None": (None, None)}
-        en8 = pathx.Enum(interesting=lambda d_: strip_generics(d_).endswith(("emits_to_environment", "emits_to_file", "emits_to_json_file", "Command::env", "Command::stdin",
-                                                                            "Iterator::chain", "Option::replace")))
-        seen8 = {}
-        bad8 = []
-        for q in en8.paths(thir.root(ec)):
-            mode = [e[2][0] for e in q.ev if e[0] == "arm" and e[1] == "emit_events_to"]
-            if len(mode) != 1 or mode[0] not in want8:
-                bad8.append("a path does not dispatch on the emission mode (%s)" % mode)
-                continue
-            m = mode[0]
-            prod = [strip_generics(e[1]).split("::")[-1] for e in q.ev if e[0] == "call" and strip_generics(e[1]).split("::")[-1].startswith("emits_to_")]
-            failed = any(e[0] == "arm" and e[2][0].startswith("Err") for e in q.ev)
-            asg = [e[2] for e in q.ev if e[0] == "assign" and e[1] == "envs"]
-            rep = [pathx.desc(e[2]["a"][0]) for e in q.ev if e[0] == "call" and strip_generics(e[1]).endswith("Option::replace")]
-            envloop = [e for e in q.ev if e[0] == "loop" and e[2] == "for envs"]
-            applied = bool(envloop) and all([[pathx.desc(a) for a in x[2]["a"]] for x in it if x[0] == "call" and strip_generics(x[1]).endswith("Command::env")] == [["command", "var.key", "var.value"]]
-                                            and ("loop-break",) not in it for it in envloop[0][1])
-            stdin_ev = None
-            for e in q.ev:
-                if e[0] == "iflet" and e[1] == "stdin":
-                    stdin_ev = e[3] if "Some" in e[2] else (not e[3])
-            sets_stdin = any(e[0] == "call" and strip_generics(e[1]).endswith("Command::stdin") and [pathx.desc(a) for a in e[2]["a"]] == ["command", "stdin"] for e in q.ev)
-            if not applied:
-                bad8.append("%s: the collected variables are not all applied with command.env(key, value)" % m)
-            if sets_stdin != bool(stdin_ev):
-                bad8.append("%s: command.stdin is %s although stdin is %s" % (m, "set" if sets_stdin else "not set", "Some" if stdin_ev else "None"))
-            wprod, wkind = want8[m]
-            if prod != ([wprod] if wprod else []):
-                bad8.append("%s: produces with %s, expected %s" % (m, prod, wprod))
-            if failed:
-                if asg or rep:
-                    bad8.append("%s: something is handed over although producing the file failed" % m)
-                continue
-            if wkind == "env":
-                ok8 = asg == ["Box::new(Iterator::chain(envs, emits::emits_to_environment(events)))"] and not rep
-            elif wkind == "envfile":
-                ok8 = len(asg) == 1 and asg[0].startswith("Box::new(Iterator::chain(envs, once::once(EnvVar{key: Into::into('WATCHEXEC_EVENTS_FILE'), value: Into::into(path)}") and not rep
-            elif wkind == "stdin":
-                ok8 = not asg and rep == ["stdin"]
-            else:
-                ok8 = not asg and not rep
-            seen8[m] = seen8.get(m, True) and ok8
-            if not ok8:
-                bad8.append("%s: hands over %s / %s" % (m, asg, rep))
-        ctx.require(not bad8 and set(seen8) == set(want8), "R17.8", "emission-plumbing", "each emission mode hands its product to the command (environment / events file variable / stdin)",
-                    ec.loc(ec.line), detail="; ".join(sorted(set(bad8)))[:500], fail="what is produced for the command is not what it receives: " + "; ".join(sorted(set(bad8)))[:300])
-        ee = ctx.anchor_fn("R17.8", "watchexec_cli::emits::emits_to_environment")
-        sc = [[pathx.desc(a) for a in nd["a"]] for c, nd in thir.calls_in(thir.root(ee)) if strip_generics(c).endswith("paths::summarise_events_to_env")]
-        ctx.require(sc in ([["slice::iter(events)"]], [["events"]]), "R17.8", "environment-is-summary", "the environment variables are the summary of the batch's events", ee.loc(ee.line), detail=str(sc))
+        emission_plumbing(ctx, "R17.8")
     except Skip:
         pass
 
